@@ -74,6 +74,15 @@ def handle (op : String) (j : Json) : Except String Json := do
         | .error _ => Json.null
         | .ok cl => jexcept jstr (Spec.cellOutAkern cl c)
     pure (Json.mkObj [("text", jstr (render c)), ("kern", jexcept jstr (Spec.cellOutKern c)), ("akern", ak)])
+  | "abs.view" =>
+    -- the cell under (encoding, categories, clef) from its abstract description
+    let c ← cellOfJson (← j.getObjVal? "cell")
+    let e ← encodingOfName (← (← j.getObjVal? "enc").getStr?)
+    let cats ← catsOfJson j "cats"
+    let clef : Option Clef := match j.getObjVal? "clef" with
+      | .ok (.str s) => (Gkern.createClef s.toList).toOption
+      | _ => none
+    pure (Json.mkObj [("view", jexcept jstr (Spec.cellView e cats clef c))])
   | "tok.tokenize" =>
     let e ← encodingOfName (← (← j.getObjVal? "enc").getStr?)
     let cats ← catsOfJson j "cats"
